@@ -11,7 +11,8 @@
  * There is no expectation in here: names are translated to numbers with the C headers, nothing more.
  *
  * script line (space separated; strings hex-encoded with a leading 'x'):
- *   id cwd sysname acc flags d1lo d1hi d1dir p1 d2lo d2hi d2dir p2 args
+ *   id cwd sysname acc flags d1lo d1hi d1dir p1 p1fd d2lo d2hi d2dir p2 p2fd args
+ * p1fd/p2fd: if not empty, a directory to open; the name becomes /proc/self/fd/<N>/<p>
  */
 #define _GNU_SOURCE
 #include <errno.h>
@@ -204,7 +205,7 @@ static void dprep(struct dspec *d)
 
 int main(void)
 {
-	static char line[40000], cwd[4200], p1[4200], p2[4200], tok[14][8500];
+	static char line[60000], cwd[4200], p1[4300], p2[4300], pf1[4200], pf2[4200], tmpn[4200], tok[16][8500];
 	static char t1f[9000], t1n[9000], t2f[9000], t2n[9000], buf[4096];
 	static struct dspec d1, d2;
 	static char strarg[] = "zz/tgt";
@@ -215,10 +216,10 @@ int main(void)
 	while (fgets(line, sizeof line, stdin)) {
 		int n = 0, i;
 		char *sv, *t;
-		for (t = strtok_r(line, " \n", &sv); t && n < 14; t = strtok_r(0, " \n", &sv))
+		for (t = strtok_r(line, " \n", &sv); t && n < 16; t = strtok_r(0, " \n", &sv))
 			cpy(tok[n++], sizeof tok[0], t);
 		if (n == 0) continue;
-		if (n != 14) die("bad script line", tok[0]);
+		if (n != 16) die("bad script line", tok[0]);
 		unhex(tok[1], cwd, sizeof cwd);
 		long nr = -1;
 		for (i = 0; sysnr[i].n; i++)
@@ -230,15 +231,28 @@ int main(void)
 		cpy(d1.hi, sizeof d1.hi, tok[6]);
 		unhex(tok[7], d1.dir, sizeof d1.dir);
 		unhex(tok[8], p1, sizeof p1);
-		cpy(d2.lo, sizeof d2.lo, tok[9]);
-		cpy(d2.hi, sizeof d2.hi, tok[10]);
-		unhex(tok[11], d2.dir, sizeof d2.dir);
-		unhex(tok[12], p2, sizeof p2);
+		unhex(tok[9], pf1, sizeof pf1);
+		cpy(d2.lo, sizeof d2.lo, tok[10]);
+		cpy(d2.hi, sizeof d2.hi, tok[11]);
+		unhex(tok[12], d2.dir, sizeof d2.dir);
+		unhex(tok[13], p2, sizeof p2);
+		unhex(tok[14], pf2, sizeof pf2);
 		if (chdir(cwd)) die("chdir", cwd);
 		dprep(&d1);
 		dprep(&d2);
+		int afd1 = -1, afd2 = -1;
+		if (pf1[0]) {
+			afd1 = open(pf1, O_RDONLY | O_DIRECTORY | O_CLOEXEC);
+			cpy(tmpn, sizeof tmpn, p1);
+			snprintf(p1, sizeof p1, "/proc/self/fd/%d/%s", afd1, tmpn);
+		}
+		if (pf2[0]) {
+			afd2 = open(pf2, O_RDONLY | O_DIRECTORY | O_CLOEXEC);
+			cpy(tmpn, sizeof tmpn, p2);
+			snprintf(p2, sizeof p2, "/proc/self/fd/%d/%s", afd2, tmpn);
+		}
 
-		int two = strstr(tok[13], "p2") != 0;
+		int two = strstr(tok[15], "p2") != 0;
 		truth(d1.reg, p1, 0, t1f);
 		truth(d1.reg, p1, 1, t1n);
 		if (two) {
@@ -256,7 +270,7 @@ int main(void)
 		how.resolve = 0;
 		i = 0;
 		char args[256];
-		cpy(args, sizeof args, tok[13]);
+		cpy(args, sizeof args, tok[15]);
 		for (t = strtok_r(args, ",", &sv); t && i < 6; t = strtok_r(0, ",", &sv), i++) {
 			if (!strcmp(t, "d1")) a[i] = d1.reg;
 			else if (!strcmp(t, "d2")) a[i] = d2.reg;
@@ -284,6 +298,8 @@ int main(void)
 
 		if (d1.fd >= 0) close(d1.fd);
 		if (d2.fd >= 0) close(d2.fd);
+		if (afd1 >= 0) close(afd1);
+		if (afd2 >= 0) close(afd2);
 		printf("%s %ld:%s %s %s %s %s\n", tok[0], ret, ret < 0 ? ename(err) : "-", t1f, t1n, t2f, t2n);
 	}
 	fflush(stdout);
